@@ -2,6 +2,6 @@
 # usage: tools/trial_all.sh <tier> <outdir> <PROP...>  — tries mutant1/mutant2 of each /tmp/mut/<PROP> against the property's own check
 tier=$1; out=$2; shift 2; mkdir -p $out
 for p in "$@"; do for n in 1 2 3; do
-  f=/tmp/mut/$p/mutant$n.patch; [ -f $f ] || continue
+  f=${MUTROOT:-/tmp/mut}/$p/mutant$n.patch; [ -f $f ] || continue
   SKIP_SUITE=1 TRIAL_LOG=$out/${p}_m$n.log /verif/tools/try_mutant.sh $f $tier $p 2>&1 | sed "s/^/$p m$n: /" | tee -a $out/SUMMARY
 done; done
